@@ -8,7 +8,7 @@
     correspondence check, not yet by a closed theorem: hence `_partial`. *)
 From Coq Require Import NArith List String Bool.
 From Coq Require Import Strings.Byte.
-From PDL Require Import Base.Bits Lang.Ast Lang.Sexp Sem.RefEncode Rust.Encode Proofs.Pack.
+From PDL Require Import Base.Bits Base.Outcome Lang.Ast Lang.Sexp Analyzer.Schema Sem.RefEncode Rust.Encode Proofs.Pack Proofs.BitfieldEncode.
 Import ListNotations.
 Open Scope N_scope.
 
@@ -28,6 +28,26 @@ Theorem C03_group_bytes_are_reference_partial :
     bytes_E (f_endian fl) (nbytes (group_bits (strip fs))) (group_sum (strip fs) 0).
 Proof. exact put_chunk_group. Qed.
 Print Assumptions C03_group_bytes_are_reference_partial.
+
+(** Whole declarations of the bit-field fragment (root packets / structs whose fields are
+    scalars, enum typedefs, fixed fields and reserved bits in ANY composition and order),
+    every value, both byte orders, every fuel: whenever the reference has an encoding,
+    the emitted encoder returns exactly those bytes -- or pdlc refused to generate the
+    declaration at all (a group wider than 64 bits: the generator panic, C10's
+    business).  It never returns other bytes and never an EncodeError. *)
+Theorem C03_bitfield_declarations_encode_as_reference :
+  forall (fuel : nat) (fl : file) (sch : schema) (id : string) (d : decl) (v : value) (bs : list byte),
+    schema_knows_enums fl sch ->
+    lookup_decl fl id = Some d ->
+    root_of_fragment fl d ->
+    ref_encode (S fuel) fl id v = Some bs ->
+    match rust_encode (S fuel) fl sch id v with
+    | Ok out => out = bs
+    | Panic GenAssert => True
+    | _ => False
+    end.
+Proof. exact rust_encode_fragment. Qed.
+Print Assumptions C03_bitfield_declarations_encode_as_reference.
 
 (** the model and the reference agree on a concrete mixed declaration (computed) *)
 Definition c03_file : file :=
